@@ -788,6 +788,17 @@ class Evaluator:
             if isinstance(v, SBytes) and len(v.segs) == 1 and v.segs[0].kind == "raw":
                 return Lin.atom(("from_bytes", v.segs[0].ref.path, order, signed))
             return Lin.atom(("from_bytes", repr(v), order, signed))
+        if dotted == "struct.unpack" and len(e.args) == 2:
+            okf, fmt = self.fold(e.args[0])
+            v = self.eval(e.args[1], st)
+            widths = {"B": (1, False), "b": (1, True), "H": (2, False), "h": (2, True), "I": (4, False), "i": (4, True), "L": (4, False), "Q": (8, False), "q": (8, True)}
+            if okf and isinstance(fmt, str) and isinstance(v, SView):
+                order = "big" if fmt[:1] in (">", "!") else "little"
+                code = fmt.lstrip("<>=!@")
+                if code in widths:
+                    rid = st.new_id()
+                    st.reads.append(Read(rid, "int", v.src, v.lo, v.hi, order=order if widths[code][0] > 1 else "any", signed=widths[code][1], node=e, struct_width=widths[code][0]))
+                    return STuple([Lin.atom(("read", rid))])
         if dotted == "uuid.UUID":
             src = kw.get("bytes_le") or kw.get("bytes")
             if src is not None:
